@@ -1,10 +1,12 @@
 """C11 — graph algorithms return what their graph-theoretic definitions say.
 
 Correspondence: every anchored routine of nipy.algorithms.graph (dijkstra/floyd,
-voronoi_labelling, cc, kruskal, the structural operations, knn/eps_nn/cross_knn/
-cross_eps/graph_3d_grid) against the Lean model `NipyVerif.Model.C11`; the model
-also evaluates, on its own output, the certificates the theorems are stated over
-(`| ok`).  Oracle: the clauses of the property evaluated on the real code against
+voronoi_labelling, cc, kruskal, mst, the structural operations and queries, knn/eps_nn/
+cross_knn/cross_eps/graph_3d_grid, the matrix builders, BipartiteGraph operations,
+euclidean_distance) against the Lean model `NipyVerif.Model.C11` / `C11B`; the model
+also evaluates, on its own output, the certificates (`| ok`) — which are theorems now for
+dijkstra / voronoi / cc / kruskal and a per-output check for `mst`.  The direction tables
+of `graph_3d_grid` are regenerated from the source (`harness/props/c11_more.py`).  Oracle: the clauses of the property evaluated on the real code against
 independent brute-force references (own Dijkstra/union-find/Kruskal, SciPy csgraph
 as a second reference where it is applicable).
 """
@@ -18,6 +20,7 @@ from fractions import Fraction
 import numpy as np
 
 from harness.core import PropertyCheck
+from harness.props import c11_more as M2
 from harness.util import Snapshot, close, errname
 from harness.util import fr as _fr
 
@@ -169,6 +172,11 @@ def consistent(g):
     return E == ne == np.size(g.weights)
 
 
+def exact_weights(edges):
+    """path sums of these weights are exact in double precision (multiples of 2^-20 below 2^20)"""
+    return all(abs(w) < 2 ** 20 and float(w * 2 ** 20).is_integer() for _, _, w in edges)
+
+
 def dtxt(d):
     return " ".join("inf" if x == INF else fr(x) for x in d)
 
@@ -204,30 +212,49 @@ class C11(PropertyCheck):
     lean_modules = ["NipyVerif.Props.C11"]
     driver = "Drivers/C11.lean"
     rule = ("cases are operation histories on one graph object (a query that may memoise, then in-place / copying "
-            "structural operations each followed by shortest-path, Voronoi, component, spanning-forest and adjacency "
-            "queries, every step compared with the model and with a recomputation from the object's current edges), "
-            "weighted (multi)digraphs / symmetric graphs with seeds and a vertex mask, point clouds "
-            "with k and eps, pairs of point clouds, and sets of lattice coordinates; thorough enumerates every "
+            "structural operations — normalize, (anti_)symmeterize, remove_trivial_edges, cut_redundancies, copy, subgraph, "
+            "set_weights, set_euclidian, set_gaussian, remove_edges — each followed by shortest-path, Voronoi, component, "
+            "spanning-forest, adjacency, degree, incidence, neighbour-list, is_connected and main_cc queries, every step "
+            "compared with the model and with a recomputation from the object's current edges), "
+            "weighted (multi)digraphs / symmetric graphs with seeds and a vertex mask (every structural operation, every "
+            "query, the matrix builders from dense / coo / csr input, the unweighted base class), point clouds "
+            "with k and eps (knn, eps_nn, mst, euclidean_distance), pairs of point clouds (cross_knn, cross_eps), "
+            "bipartite graphs with left/right vertex masks, seed/sample sets for voronoi_diagram, complete graphs, and sets "
+            "of lattice coordinates; thorough enumerates every "
             "digraph on <= 4 vertices, every weighted digraph on 3 vertices and every weighted symmetric graph "
-            "on 4 vertices with weights in {0,1,2}, every undirected graph on 5 vertices; non-trivial = at least "
-            "one edge (graphs) or at least two points; distinct by full JSON of the case")
+            "on 4 vertices with weights in {0,1,2}, every undirected graph on 5 vertices, every subset of the 2x2x2 lattice "
+            "cube; non-trivial = at least one edge (graphs) or at least two points; distinct by full JSON of the case")
     assumptions = [
-        "Euclidean distances (a sqrt) are a parameter of the builder models: the matrix nipy computed is passed "
-        "to the model as exact dyadic rationals; the oracle recomputes them independently",
+        "Euclidean distances (a sqrt) are a parameter of the knn / eps_nn models: the matrix nipy computed is passed "
+        "to the model as exact dyadic rationals; euclidean_distance itself is modelled exactly up to the sqrt "
+        "(sqDist_eq_def) and the returned roots are accepted when s*s is within 2^-48 (relative) of the exact square",
         "compact_neighb slice order and scipy's lil row order are modelled as edge-list order (no result depends on them)",
-        "np.argsort tie order (kruskal, cross_knn) is not modelled: sorted weights are the canonical observation",
-        "dijkstra_correct / voronoi_nearest / cc_partition are proved from certificates that the model evaluates on "
-        "its own output for every case (reported as `ok`); the loop invariant that would make the certificate "
-        "unconditional (all edges relaxed) is not proved",
-        "minimality of kruskal/mst and the lattice encoding argument are oracle-only (reference MST weight, brute-force neighbourhoods)",
+        "np.argsort tie order (kruskal, cross_knn, voronoi_diagram) is not modelled: sorted weights / admissible pairs "
+        "are the canonical observation",
+        "Voronoi labels are specified up to ties: with weights whose path sums are exact in double precision the labels "
+        "must equal the model's (loop as written); after normalize / set_gaussian / set_euclidian a label is accepted "
+        "iff its seed is a nearest one by the model's exact distances within 1e-12",
+        "set_gaussian: the exponent -d^2/(2 sigma) is exact in the model; exp is applied by the implementation only "
+        "(compared through log to 1e-9, and by the oracle against numpy)",
+        "mst (Boruvka on point clouds): the loop is modelled as written on the squared distances; minimality follows from "
+        "mst_certificate_sound through the certificate mstCertB the model evaluates on every output (reported as `ok`)",
+        "graph_3d_grid: distinct lattice points (the property quantifies over sets of coordinates)",
         "cross_knn / cross_eps use the squared Euclidean metric (weights and eps threshold), as their code and tests do",
         "kruskal pads its edge array with 2k-2 rows (0,0) of weight 0; the padding is not counted as part of the forest",
         "knn: pairs at distance 0 cannot be represented by wgraph_from_adjacency and are accepted either way",
         "normalize is divided in floating point: compared with the exact model to 1e-9",
+        "BipartiteGraph.subgraph_right compares the mask length with V (as written and as its docstring says); the "
+        "oracle states the documented result only where V = W",
+        "cliques (replicator dynamics), show (plotting) are executed / excluded without a clause of the property",
     ]
-    level_note = ("certificate soundness, path-achievability of dijkstra, structural operations and eps/knn builders "
-                  "are proved for all inputs; completeness of the relaxation, Kruskal minimality and the lattice "
-                  "encoding are checked by certificate/oracle only")
+    level_note = ("dijkstra, voronoi_labelling, cc and kruskal are proved correct for all inputs from their loop "
+                  "invariants (no certificate); graph_3d_grid is proved against the unit-offset definition for all "
+                  "sets of lattice points with tables regenerated from the source; structural operations and eps/knn "
+                  "builders are proved against the adjacency matrix; mst (Boruvka) minimality is certificate-based; "
+                  "cross_knn selection, voronoi_diagram and cliques are oracle-only")
+
+    def translators(self):
+        return [("NipyVerif/Gen/C11Grid.lean", M2.grid_lean_text())]
 
     # ------------------------------------------------------------------
     # generation
@@ -329,9 +356,9 @@ class C11(PropertyCheck):
             pts = [list(pts[0]) for _ in range(n)]     # all identical
         return pts
 
-    QUERIES = ["dij", "dij", "floyd", "vor", "cc", "kru", "dense", "compact"]
+    QUERIES = ["dij", "dij", "floyd", "vor", "cc", "kru", "dense", "compact", "deg", "linc", "rinc", "lon", "isc", "mcc"]
     MUTS = ["normalize", "normalize", "symmeterize", "symmeterize", "anti_symmeterize", "rte", "cut", "copy",
-            "sub", "setw", "assignw", "euclid", "remove_edges", "scalew"]
+            "sub", "setw", "assignw", "euclid", "remove_edges", "scalew", "gauss"]
 
     def _hist_case(self, rng):
         """query -> in-place / copying operation -> query ... on one object; the first step always builds
@@ -353,7 +380,7 @@ class C11(PropertyCheck):
                 arg = [1 if rng.random() < 0.75 else 0 for _ in range(64)]
             elif m in ("setw", "assignw"):
                 arg = [rng.choice(WCHOICES) for _ in range(64)]
-            elif m == "euclid":
+            elif m in ("euclid", "gauss"):
                 arg = [float(rng.randrange(0, 9)) for _ in range(16)]
             elif m == "scalew":
                 arg = rng.choice([2.0, 0.5, 4.0])
@@ -412,12 +439,59 @@ class C11(PropertyCheck):
                           "eps": rng.choice([0.0, 0.5, 1.0, 2.0, 4.0, 9.5, 100.0])})
         for _ in range(150 if q else 2000):
             n = rng.choice([1, 2, 3, 4, 6, 9, 15, 27, 40])
-            ext = rng.choice([1, 2, 2, 3, 4])
+            style = rng.choice(["box", "aniso", "clusters", "diag", "segments", "segments", "slab", "slab", "tripod"])
             off = [rng.randrange(-5, 6) for _ in range(3)]
-            cells = [(x, y, z) for x in range(ext + 1) for y in range(ext + 1) for z in range(ext + 1)]
+            if style == "box":
+                ext = [rng.choice([1, 2, 2, 3, 4])] * 3
+            elif style == "aniso":      # long thin / flat boxes: the extents enter the base of the positional code
+                ext = [rng.choice([0, 1, 2, 3, 6, 12, 25]) for _ in range(3)]
+            else:
+                ext = [rng.choice([2, 4, 9]) for _ in range(3)]
+            if style == "segments":     # union of lattice segments along unit offsets: L-, V- and anti-diagonal shapes,
+                cells = set()           # far from filling their bounding box
+                for _ in range(rng.choice([1, 2, 2, 3])):
+                    p0 = [rng.randrange(0, 4) for _ in range(3)]
+                    d = rng.choice([o for o in itertools.product((-1, 0, 1), repeat=3) if any(o)])
+                    thick = rng.random() < 0.5
+                    for t in range(rng.choice([2, 5, 9, 14, 22])):
+                        c = (p0[0] + t * d[0], p0[1] + t * d[1], p0[2] + t * d[2])
+                        cells.add(c)
+                        if thick:
+                            o = rng.choice([(1, 0, 0), (0, 1, 0), (0, 0, 1), (1, 1, 0), (0, 1, 1), (1, 1, 1), (1, -1, 0)])
+                            cells.add((c[0] + o[0], c[1] + o[1], c[2] + o[2]))
+                cells = sorted(cells)
+                n = rng.choice([n, n, len(cells)])
+            elif style == "slab":       # two adjacent lattice planes s.p = c, c+1 cut by a cube: small coordinate sums,
+                E = rng.choice([3, 4, 6, 9])   # large coordinate differences
+                sg = [rng.choice([-1, 1]) for _ in range(3)]
+                c0 = rng.randrange(-E, E + 1)
+                cells = [(x, y, z) for x in range(E + 1) for y in range(E + 1) for z in range(E + 1)
+                         if sg[0] * x + sg[1] * y + sg[2] * z in (c0, c0 + 1)] or [(0, 0, 0)]
+                n = rng.choice([n, len(cells), len(cells)])
+            elif style == "tripod":     # three axis-parallel legs of different lengths from a small cube
+                legs = [rng.choice([2, 5, 9, 17]) for _ in range(3)]
+                cells = sorted({(x, y, z) for x in range(2) for y in range(2) for z in range(2)}
+                               | {(t, a, b) for t in range(legs[0]) for a in (0, 1) for b in (0, 1)}
+                               | {(a, t, b) for t in range(legs[1]) for a in (0, 1) for b in (0, 1)}
+                               | {(a, b, t) for t in range(legs[2]) for a in (0, 1) for b in (0, 1)})
+                n = rng.choice([n, len(cells)])
+            elif style == "clusters":     # two small clusters at opposite corners of the box
+                a = [(x, y, z) for x in range(2) for y in range(2) for z in range(2)]
+                cells = a + [(ext[0] + x, ext[1] + y, ext[2] + z) for x, y, z in a]
+            elif style == "diag":       # a staircase through the box plus its first neighbours
+                cells = sorted({(min(t + dx, ext[0]), min(t + dy, ext[1]), min(t + dz, ext[2]))
+                                for t in range(max(ext) + 1) for dx in (0, 1) for dy in (0, 1) for dz in (0, 1)})
+            else:
+                cells = [(x, y, z) for x in range(ext[0] + 1) for y in range(ext[1] + 1) for z in range(ext[2] + 1)]
             pts = rng.sample(cells, min(n, len(cells)))
             cases.append({"kind": "grid", "xyz": [[p[0] + off[0], p[1] + off[1], p[2] + off[2]] for p in pts],
-                          "k": rng.choice([6, 18, 26])})
+                          "k": rng.choice([6, 18, 26, 26])})
+        for _ in range(120 if q else 1500):
+            cases.append(M2.gen_bip(rng))
+        for _ in range(40 if q else 400):
+            cases.append(M2.gen_vd(rng))
+        for n in ([1, 2, 3, 5] if q else range(1, 13)):
+            cases.append({"kind": "complete", "n": n})
         if not q:   # every subset of the 2x2x2 cube, every neighbourhood system
             cube = list(itertools.product([0, 1], repeat=3))
             for m in range(1, 256):
@@ -431,6 +505,10 @@ class C11(PropertyCheck):
         import warnings
         warnings.filterwarnings("ignore")
         from nipy.algorithms.graph import graph as G
+        if case["kind"] == "bip":
+            return M2.bip_case(case)
+        if case["kind"] == "vd":
+            return M2.vd_case(case, G)
         return getattr(self, "_" + case["kind"])(case, G)
 
     # ---- graphs ------------------------------------------------------
@@ -527,7 +605,7 @@ class C11(PropertyCheck):
             fails.append(f"voronoi_labelling(seed={seeds}) raised {lab}")
             add(f"vor {gl} {sl}".strip(), lab)
         else:
-            add(f"vor {gl} {sl}".strip(), " ".join(str(int(x)) for x in lab) + " | ok")
+            add(f"vor {gl} {sl}".strip(), "VOR 1 " + " ".join(str(int(x)) for x in lab))
             dS = ref_dist(V, edges, seeds)
             dI = [ref_dist(V, edges, [s]) for s in seeds]
             for v in range(V):
@@ -621,6 +699,31 @@ class C11(PropertyCheck):
         ok, M = call("adjacency", lambda: mk().adjacency().toarray())
         if not ok or not np.array_equal(M, dense(V, [(u, v, 1.0) for u, v, _ in edges])):
             fails.append(f"adjacency() is not the edge-count matrix ({M if not ok else ''})")
+
+        # queries that only read the rows: degrees, incidences, neighbour lists, connectivity
+        for which in ("deg", "linc", "rinc", "lon", "isc", "mcc"):
+            try:
+                M2.query_lines(mk(), V, edges, sym, which, add, fails.append)
+            except Exception as e:
+                fails.append(f"{which} query raised {type(e).__name__}: {e} (V={V}, edges={edges[:8]})")
+        M2.builder_lines(G, V, edges, A, add, fails)
+        M2.base_graph_oracle(G, V, edges, fails)
+        if edges:
+            # set_gaussian on a small integer embedding (sigma = 0 means the mean squared length)
+            dim = 1 + (len(edges) + V) % 3
+            X = np.array([[float(((v + 1) * (k + 2) * 7) % 5) for k in range(dim)] for v in range(V)])
+            for sigma in (0.0, 2.0, -1.0)[: 3 if V % 3 == 0 else 2]:
+                M2.gauss_line(G, mk, V, edges, X, sigma, add, fails)
+            ok, cl = call("cliques", lambda: mk().cliques())
+            if not ok:
+                fails.append(f"cliques raised {cl} (V={V}, edges={edges[:8]})")
+            elif np.shape(cl) != (V,):
+                fails.append("cliques: labelling does not have one entry per vertex")
+        ok, F = call("floyd", lambda: mk().floyd())
+        if not ok:
+            fails.append(f"floyd() raised {F}")
+        elif np.atleast_2d(F).shape != (V, V) or any(list(np.atleast_2d(F)[s_]) != ref_dist(V, edges, [s_]) for s_ in range(V)):
+            fails.append("floyd(): a row differs from the true single-source distances")
 
         def same(B, want, what, tol=0.0):
             if B.shape != want.shape or not (np.array_equal(B, want) if tol == 0 else np.allclose(B, want, rtol=tol, atol=tol)):
@@ -747,6 +850,15 @@ class C11(PropertyCheck):
                 if not np.allclose(tot[sums != 0], 1, atol=1e-12) or not np.array_equal(retv, sums):
                     fails.append(f"normalize({cc_}): sums {tot.tolist()} / returned {retv.tolist()}")
 
+    def _complete(self, c, G):
+        n = c["n"]
+        fails = []
+        g = G.complete_graph(n)
+        if not np.array_equal(dense(n, gedges(g)), np.ones((n, n))) or int(g.E) != n * n:
+            fails.append(f"complete_graph({n}): adjacency matrix is not all ones")
+        return {"lines": [f"complete {n}"], "impl": [gobs(g)], "oracle": fails[0] if fails else None,
+                "nontrivial": n >= 2, "tags": ["complete"], "mutated": None}
+
     # ---- operation histories on one object ---------------------------
     def _hist(self, c, G):
         V0, edges0 = c["V"], [tuple(e) for e in c["e"]]
@@ -803,7 +915,7 @@ class C11(PropertyCheck):
                                 break
                     else:
                         lab = [int(x) for x in g.voronoi_labelling(sa)]
-                        add(f"vor {gl} {sl}", " ".join(map(str, lab)) + " | ok")
+                        add(f"vor {gl} {sl}", f"VOR {int(exact_weights(cur))} " + " ".join(map(str, lab)))
                         dS = ref_dist(V, cur, seeds)
                         dI = [ref_dist(V, cur, [s_]) for s_ in seeds]
                         for v in range(V):
@@ -835,6 +947,9 @@ class C11(PropertyCheck):
                     add(f"dense {gl}", frs(M.ravel().tolist()))
                     if not np.array_equal(M, dense(V, cur)):
                         fail("to_coo_matrix() is not the adjacency matrix of the current edges and weights")
+                elif name in ("deg", "linc", "rinc", "lon", "isc", "mcc"):
+                    if not neg:
+                        M2.query_lines(g, V, cur, sym, name, add, fail)
                 elif name == "compact":
                     idx, nb, wt = g.compact_neighb() if cur else (np.zeros(V + 1, int), [], [])
                     for v in range(V):
@@ -919,6 +1034,19 @@ class C11(PropertyCheck):
                     want = [(a, b, float(abs(X[a, 0] - X[b, 0]))) for a, b, _ in cur]
                     if not consistent(g) or gedges(g) != want:
                         fail("set_euclidian: weights are not the distances between the embedded end points")
+                elif name == "gauss":
+                    if not cur:
+                        continue
+                    X = np.array([arg[i % len(arg)] for i in range(V)], dtype=float).reshape(V, 1)
+                    d2 = np.array([(X[a, 0] - X[b, 0]) ** 2 for a, b, _ in cur])
+                    if d2.mean() == 0:
+                        continue
+                    g.set_gaussian(X)
+                    want = np.exp(-d2 / (2 * d2.mean()))
+                    add(f"gauss {gl} 0 {M2.mat(X)}", " ".join(fr(np.log(x)) for x in np.asarray(g.weights, float).tolist()))
+                    if not consistent(g) or not np.allclose(np.asarray(g.weights, float), want, rtol=1e-12) or \
+                            [(a, b) for a, b, _ in gedges(g)] != [(a, b) for a, b, _ in cur]:
+                        fail("set_gaussian: weights are not exp(-d^2 / (2 mean d^2)) of the embedded end points")
                 elif name == "remove_edges":
                     if not cur:
                         continue
@@ -956,6 +1084,8 @@ class C11(PropertyCheck):
         if not np.array_equal(dist, D):
             fails.append("euclidean_distance differs from sqrt(sum (x-y)^2) on exactly representable points")
         dm = f"{n} {n} " + frs(dist.ravel().tolist())
+        lines.append(f"eucl {M2.mat(X)} {M2.mat(X)} {dm}")
+        impl.append(frs((dist ** 2).ravel().tolist()) + " | ok")
         snap = Snapshot(X=X)
         # knn
         try:
@@ -1017,6 +1147,9 @@ class C11(PropertyCheck):
             try:
                 g = with_timeout(lambda: G.mst(X))
                 ke = gedges(g)
+                if n >= 2:
+                    lines.append(f"mst {n} {n} " + frs(D2.ravel().tolist()))
+                    impl.append(" ".join([str(len(ke))] + [f"{a} {b} {fr(D2[a, b])}" for a, b, _ in ke]) + " | ok")
                 comp = [(i, j, D[i, j]) for i in range(n) for j in range(n) if i < j]
                 bad = None
                 if len(ke) != 2 * (n - 1):
@@ -1060,6 +1193,27 @@ class C11(PropertyCheck):
                 return []
             return [(int(a), int(b), float(w)) for (a, b), w in zip(np.asarray(g.edges).tolist(),
                                                                     np.asarray(g.weights, float).tolist())]
+        from nipy.algorithms.graph.bipartite_graph import check_feature_matrices
+        from nipy.algorithms.utils.fast_distance import euclidean_distance
+        try:
+            ED = euclidean_distance(X, Y)
+            lines.append(f"eucl {M2.mat(X)} {M2.mat(Y)} {n1} {n2} " + frs(ED.ravel().tolist()))
+            impl.append(frs((ED ** 2).ravel().tolist()) + " | ok")
+            if not np.array_equal(ED, np.sqrt(SQ)):
+                fails.append("euclidean_distance(X, Y) differs from sqrt(sum (x-y)^2) on exactly representable points")
+            check_feature_matrices(X, Y)
+            try:
+                check_feature_matrices(X, np.zeros((2, X.shape[1] + 1)))
+                fails.append("check_feature_matrices accepted matrices of different widths")
+            except ValueError:
+                pass
+            try:
+                euclidean_distance(X, np.zeros((2, X.shape[1] + 1)))
+                fails.append("euclidean_distance accepted matrices of different widths")
+            except ValueError:
+                pass
+        except Exception as e:
+            fails.append(f"euclidean_distance / check_feature_matrices raised {type(e).__name__}: {e}")
         try:
             g = cross_knn(X, Y, k)
             be = bedges(g)
@@ -1111,6 +1265,17 @@ class C11(PropertyCheck):
                     if i != j and d.max() <= 1 and d.sum() <= maxl1:
                         want[(i, j)] = float(np.sqrt(d.sum()))
             got = {(a, b): w for a, b, w in ed}
+            h = G.WeightedGraph(n)
+            E = h.from_3d_grid(xyz, k)
+            if int(E) != len(ed) or gedges(h) != ed:
+                fails.append(f"WeightedGraph.from_3d_grid(k={k}) differs from wgraph_from_3d_grid")
+            for bad in (lambda: G.WeightedGraph(n + 1).from_3d_grid(xyz, k), lambda: G.wgraph_from_3d_grid(xyz[:, :2], k),
+                        lambda: G.wgraph_from_3d_grid(xyz, 7)):
+                try:
+                    bad()
+                    fails.append("a 3d-grid builder accepted an inconsistent shape / neighbourhood system")
+                except ValueError:
+                    pass
             if len(got) != len(ed):
                 fails.append(f"wgraph_from_3d_grid(k={k}): an edge appears twice")
             elif got != want:
@@ -1124,6 +1289,8 @@ class C11(PropertyCheck):
 
     # ------------------------------------------------------------------
     def compare(self, case, impl_obs, model_out):
+        if str(impl_obs).startswith("VOR "):
+            return self._compare_vor(str(impl_obs).split()[1:], model_out)
         a, b = str(impl_obs).split(), model_out.split()
         if a == b:
             return None
@@ -1138,6 +1305,33 @@ class C11(PropertyCheck):
             except (ValueError, ZeroDivisionError):
                 pass
             return f"token {k}: impl={x} model={y} (impl={str(impl_obs)[:200]!r} model={model_out[:200]!r})"
+        return None
+
+    @staticmethod
+    def _compare_vor(obs, model_out):
+        """Voronoi labels are specified up to ties ("a nearest seed").  Exact weights: the labels must be the
+        model's (tie rule of the loop as written).  Weights whose path sums round: a label is accepted iff its
+        seed is a nearest one according to the model's exact single-seed distances, within rounding."""
+        strict, labs = obs[0] == "1", [int(x) for x in obs[1:]]
+        parts = [p.split() for p in model_out.split("|")]
+        if len(parts) < 2 or parts[1] != ["ok"]:
+            return f"voronoi model answer {model_out[:200]!r}"
+        mlab = [int(x) for x in parts[0]]
+        if labs == mlab:
+            return None
+        if strict or len(labs) != len(mlab):
+            return f"voronoi labels impl={labs} model={mlab}"
+        rows = [[None if x == "inf" else Fraction(x) for x in r] for r in parts[2:]]
+        for v, l in enumerate(labs):
+            ds = [r[v] for r in rows if r[v] is not None]
+            if l == -1:
+                if ds:
+                    return f"vertex {v} unlabelled by the implementation but reachable in the model"
+                continue
+            if not 0 <= l < len(rows) or rows[l][v] is None:
+                return f"vertex {v} labelled {l}: that seed does not reach it in the model"
+            if float(rows[l][v]) > float(min(ds)) * (1 + 1e-12) + 1e-12:
+                return f"vertex {v} labelled {l} at distance {float(rows[l][v])}, nearest seed at {float(min(ds))}"
         return None
 
     def shrink(self, case):
@@ -1172,6 +1366,18 @@ class C11(PropertyCheck):
         elif kd in ("pts", "xpts"):
             for key in ("X", "Y"):
                 if key in case and len(case[key]) > 1:
+                    for i in range(len(case[key])):
+                        c = dict(case)
+                        c[key] = case[key][:i] + case[key][i + 1:]
+                        yield c
+        elif kd == "bip":
+            for i in range(len(case["e"])):
+                c = dict(case)
+                c["e"] = case["e"][:i] + case["e"][i + 1:]
+                yield c
+        elif kd == "vd":
+            for key in ("samples", "seeds"):
+                if len(case[key]) > (1 if key == "samples" else 2):
                     for i in range(len(case[key])):
                         c = dict(case)
                         c[key] = case[key][:i] + case[key][i + 1:]
